@@ -7,7 +7,9 @@ package fakes
 
 import (
 	"context"
+	"fmt"
 	"io"
+	"os"
 	gosync "sync"
 
 	"anndbverif/vrt"
@@ -15,6 +17,7 @@ import (
 	pb "github.com/marekgalovic/anndb/protobuf"
 	"google.golang.org/grpc"
 	"google.golang.org/grpc/codes"
+	"google.golang.org/grpc/connectivity"
 	"google.golang.org/grpc/status"
 )
 
@@ -55,22 +58,41 @@ func Reset() {
 	YieldBeforeCall = false
 }
 
-func target(cc grpc.ClientConnInterface) string {
+// tgt is what a fake client is bound to: the target address and the connection object it was built on (a client built
+// on a connection that has been closed since fails like the real one: "the client connection is closing").
+type tgt struct {
+	addr string
+	cc   *grpc.ClientConn
+}
+
+func target(cc grpc.ClientConnInterface) tgt {
 	if c, ok := cc.(*grpc.ClientConn); ok && c != nil {
-		return c.Target()
+		return tgt{c.Target(), c}
 	}
 	if t, ok := cc.(interface{ Target() string }); ok {
-		return t.Target()
+		return tgt{t.Target(), nil}
 	}
-	return ""
+	return tgt{}
 }
+
+// ErrConnClosing is what a call on a closed connection returns.
+var ErrConnClosing = status.Error(codes.Canceled, "grpc: the client connection is closing")
+
+var debugNet = os.Getenv("VERIF_DEBUG_NET") != ""
 
 // callsMu only matters in free-running (race pass) use; under the cooperative scheduler it is never contended.
 var callsMu gosync.Mutex
 
-func pre(t, method string, ctx context.Context, req interface{}) (*Node, bool, interface{}, error) {
+func pre(tg tgt, method string, ctx context.Context, req interface{}) (*Node, bool, interface{}, error) {
+	t := tg.addr
 	if YieldBeforeCall {
 		vrt.Yield()
+	}
+	if tg.cc != nil && tg.cc.GetState() == connectivity.Shutdown {
+		if debugNet {
+			fmt.Fprintf(os.Stderr, "    call %s on %s: the client's connection is closed\n", method, t)
+		}
+		return nil, true, nil, ErrConnClosing
 	}
 	callsMu.Lock()
 	Calls[t+" "+method]++
@@ -92,7 +114,7 @@ func pre(t, method string, ctx context.Context, req interface{}) (*Node, bool, i
 
 // ---- raft transport ----
 
-type raftClient struct{ t string }
+type raftClient struct{ t tgt }
 
 func NewRaftTransportClient(cc grpc.ClientConnInterface) pb.RaftTransportClient {
 	return &raftClient{target(cc)}
@@ -114,7 +136,7 @@ func (c *raftClient) Receive(ctx context.Context, in *pb.RaftMessage, opts ...gr
 
 // ---- search ----
 
-type searchClient struct{ t string }
+type searchClient struct{ t tgt }
 
 func NewSearchClient(cc grpc.ClientConnInterface) pb.SearchClient { return &searchClient{target(cc)} }
 
@@ -180,7 +202,7 @@ func (c *searchClient) SearchPartitions(ctx context.Context, in *pb.SearchPartit
 
 // ---- data manager ----
 
-type dataClient struct{ t string }
+type dataClient struct{ t tgt }
 
 func NewDataManagerClient(cc grpc.ClientConnInterface) pb.DataManagerClient {
 	return &dataClient{target(cc)}
@@ -271,7 +293,7 @@ func (c *dataClient) PartitionInfo(ctx context.Context, in *pb.PartitionInfoRequ
 
 // ---- nodes manager ----
 
-type nodesClient struct{ t string }
+type nodesClient struct{ t tgt }
 
 func NewNodesManagerClient(cc grpc.ClientConnInterface) pb.NodesManagerClient {
 	return &nodesClient{target(cc)}
@@ -325,7 +347,7 @@ func (c *nodesClient) AddNode(ctx context.Context, in *pb.Node, opts ...grpc.Cal
 	herr := n.Nodes.AddNode(in, ss)
 	st := &nodeStream{items: ss.items, err: herr}
 	if TruncateStream != nil && herr == nil {
-		keep, terr := TruncateStream(c.t, "AddNode", len(st.items))
+		keep, terr := TruncateStream(c.t.addr, "AddNode", len(st.items))
 		if keep < len(st.items) {
 			st.items = st.items[:keep]
 			st.err = terr
@@ -350,7 +372,7 @@ func (c *nodesClient) LoadInfo(ctx context.Context, in *pb.EmptyMessage, opts ..
 
 // ---- dataset manager (only used by tools; provided for completeness) ----
 
-type datasetsClient struct{ t string }
+type datasetsClient struct{ t tgt }
 
 func NewDatasetManagerClient(cc grpc.ClientConnInterface) pb.DatasetManagerClient {
 	return &datasetsClient{target(cc)}
